@@ -317,7 +317,7 @@ pub fn skeleton_fillers() -> Vec<Snippet> {
     ]
 }
 
-pub const N_SKELETONS: usize = 10;
+pub const N_SKELETONS: usize = 12;
 
 /// Build skeleton `k` with slots `s` (4 entries, indices into fillers).
 pub fn skeleton(k: usize, s: &[usize]) -> Program {
@@ -435,6 +435,35 @@ pub fn skeleton(k: usize, s: &[usize]) -> Program {
             b.push(li(A7, 10));
             b.push(ecall());
             b.push(label("L1"));
+            b.extend(sl(1));
+            b.extend(sl(2));
+            b.extend(sl(3));
+        }
+        9 => {
+            // an exit ecall reached over two paths that disagree on a7, one of them the
+            // fall-through out of another exit ecall (value analysis and ecall
+            // termination have to alternate to settle this)
+            b.extend(sl(0));
+            b.push(li(A7, 10));
+            b.push(br(BOp::Beq, T0, ZERO, "L1"));
+            b.push(li(A7, 93));
+            b.push(ecall());
+            b.push(label("L1"));
+            b.push(ecall());
+            b.extend(sl(1));
+            b.extend(sl(2));
+            b.extend(sl(3));
+        }
+        10 => {
+            // the ecall number is set differently on two branches that join in front of it
+            b.push(br(BOp::Beq, T0, ZERO, "L1"));
+            b.push(li(A7, 10));
+            b.push(j("L2"));
+            b.push(label("L1"));
+            b.push(li(A7, 1));
+            b.extend(sl(0));
+            b.push(label("L2"));
+            b.push(ecall());
             b.extend(sl(1));
             b.extend(sl(2));
             b.extend(sl(3));
